@@ -29,6 +29,14 @@ CHECKS = {
             "Observations of every execution (and initial/reset observations) equal the independently computed masked state in fully/partially observable and 1D/2D modes, aux row equals the info flags.", "3 C08"),
     "C13": ("purity by byte-wise before/after comparison + differential step vs generative_step under the same seed",
             "generative_step leaves argument, current state, last observation and counter untouched, returns unshared storage (write-through probe); step with the same draw returns and installs exactly that result.", "3 C13"),
+    "C09": ("layout decode oracle + round-trip (from_numpy / get_readable) over generated scenarios incl. custom address bounds; 1D/2D lock-step",
+            "Initial and visited states/observations are decoded by the documented layout computed from the scenario source and compared with the source / reference model; shapes vs advertised dims; 1D == flatten(2D); from-array constructors and readable decoders round-trip.", "3 C09"),
+    "C10": ("contract PBT over all 8 mode combinations with every member spelling incl. the space's own sampler; exhaustive member stepping on tiny*",
+            "reset/step tuple shapes and types, observation dtype/shape/containment in observation_space and advertised dims, acceptance of sampled NumPy integers/arrays, ints, lists, tuples, Action objects.", "3 C10"),
+    "C11": ("differential against the cartesian product from the scenario source; exhaustive decode of every parameter vector; mask oracle over histories",
+            "Flat multiset == scenario product, size == advertised, stable mapping; every vector of product(range(nvec)) decoded and compared with its documented meaning (wrap-around, first definition, zero-cost no-op); mask == discovered(target) in every visited state.", "3 C11"),
+    "C12": ("8-way lock-step differential under identical seeds (flat index vs parameter vector rendering of each action)",
+            "State tensors, rewards, terminal/limit flags, canonical info and step counters equal across all 8 mode combinations after every step; observations differ only by masking and shape.", "3 C12"),
 }
 
 NOT_YET = {}
